@@ -34,14 +34,17 @@ def rand_shape(rnd):
     if rnd.random() < 0.5:
         x, y = round(rnd.uniform(0, 50), 1), round(rnd.uniform(0, 50), 1)
         return ("rect", [x, y, x + round(rnd.uniform(0, 20), 1), y + round(rnd.uniform(0, 20), 1)])
-    return ("circ", [round(rnd.uniform(5, 50), 1), round(rnd.uniform(5, 50), 1), round(rnd.uniform(0, 12), 1)])
+    r = round(rnd.uniform(0, 12), 1)
+    if rnd.random() < 0.06:
+        r = -r           # the API does not validate geometry: a negative radius is an empty region
+    return ("circ", [round(rnd.uniform(5, 50), 1), round(rnd.uniform(5, 50), 1), r])
 
 
 # ======================================================================================= C13
 
 class C13(Monitor):
     prop = "C13"
-    quick_cases = 2000
+    quick_cases = 2500
     rule = ("sequences of API requests {add with/without id, duplicate id, update of an unknown id, update with a changed type, bad "
             "type, delete of an unknown id, delete, each of them also as anonymous user} interleaved with file selection, print "
             "start and print end events under both clear-after-print settings; a list model (append / replace in place / remove) "
@@ -58,10 +61,10 @@ class C13(Monitor):
                ["api", "updateExcludeRegion", dict(C1, id="a"), False], ["api", "updateExcludeRegion", dict(R1, id="zz"), False],
                ["api", "updateExcludeRegion", dict(R1, id="a", type="Blob"), False], ["api", "deleteExcludeRegion", dict(id="a"), False],
                ["api", "deleteExcludeRegion", dict(id="zz"), False], ["api", "deleteExcludeRegion", dict(id="a"), True],
-               ["event", EV_FILE], ["event", EV_START], ["event", "PrintDone"], ["get"]]
+               ["event", EV_FILE], ["event", EV_START], ["event", "PrintDone"], ["get"], ["at", "ExcludeRegion", "off"]]
     exhaustive_what = ("small scope: every sequence of up to 3 (quick) / 4 (thorough) steps over {add a, add a again (other type), add b, "
                        "add without id, update a (type change, covering), update unknown, bad type, delete a, delete unknown, anonymous "
-                       "delete, file selected, print started, print done, GET} under (clear, shrink) = (on, off) and (off, on)")
+                       "delete, file selected, print started, print done, GET, a disable @-command} under (clear, shrink) = (on, off) and (off, on)")
 
     def gen_case(self, rnd, tier, k):
         if k % 4 != 0:
@@ -105,8 +108,10 @@ class C13(Monitor):
                 steps.append(["event", EV_START])
             elif t < 0.95:
                 steps.append(["event", rnd.choice(EV_END)])
-            elif t < 0.97:
+            elif t < 0.96:
                 steps.append(["event", rnd.choice(EV_NEUTRAL)])
+            elif t < 0.98:
+                steps.append(["at", "ExcludeRegion", rnd.choice(["off", "on", "disable"])])
             else:
                 settings = dict(clear=rnd.random() < 0.5, shrink=rnd.random() < 0.5)
                 steps.append(["settings", dict(settings)])
@@ -193,7 +198,7 @@ class C13(Monitor):
                     elif not (isinstance(resp, tuple) and resp[1] == 409):
                         bad(i, st, "unexpected-response", repr(resp))
             elif st[0] == "event":
-                p.event(st[1])
+                p.event(st[1], st[2] if len(st) > 2 else None)
                 if st[1] == EV_START:
                     active = True
                 elif st[1] in EV_END:
@@ -205,6 +210,8 @@ class C13(Monitor):
             elif st[0] == "settings":
                 p.write_settings(st[1])
                 clear, shrink = bool(st[1].get("clear")), bool(st[1].get("shrink"))
+            elif st[0] == "at":
+                p.at(st[1], st[2])
             elif st[0] == "get":
                 body = p.api_get()
                 stats["c13_get_checked"] += 1
@@ -412,18 +419,17 @@ class C12(Monitor):
                 stats["c12_probe_points_checked"] += 1
                 if p.state.isPointExcluded(x, y):
                     continue
-                # flipped: confirm with exact arithmetic
-                was_in = any(exact_margin(s, x, y)[0] >= 0 for s in old_shapes)
-                clear_out = True
-                for s in new_shapes:
+                # flipped (as observed through the real isPointExcluded): borderline only when exact arithmetic puts the point
+                # within 1e-9 relative of a border of an old or a new region, where float rounding may decide either way
+                near = False
+                for s in old_shapes + new_shapes:
                     m, scale = exact_margin(s, x, y)
-                    thr = F(1, 10 ** 9) * scale
-                    if m >= -thr:
-                        clear_out = False
+                    if abs(m) <= F(1, 10 ** 9) * scale:
+                        near = True
                         break
-                if was_in and clear_out:
-                    bad(i, st, "excluded-point-no-longer-excluded", "point (%r, %r) was excluded by %r and is outside %r; response %r"
-                        % (x, y, old_shapes, new_shapes, resp))
+                if not near:
+                    bad(i, st, "excluded-point-no-longer-excluded", "point (%r, %r) was excluded with regions %r and is not excluded "
+                        "with regions %r; response %r" % (x, y, old_shapes, new_shapes, resp))
                     break
                 stats["c12_borderline_flips"] += 1
             if v:
